@@ -154,6 +154,7 @@ func genOpts(j genJob) *generator.GenOpts {
 	g.IncludeMain, g.IncludeSupport = j.Kind != "client", true // as the client command does: no main for a client
 	g.ValidateSpec = false
 	g.PropertiesSpecOrder = j.KeepOrder
+	g.IsClient = j.Kind == "client" // as the client command does before defaults: selects the client layout
 	if err := g.EnsureDefaults(); err != nil {
 		panic(err)
 	}
@@ -243,6 +244,9 @@ func worker(cfgPath string) {
 		}
 		h, _ := hashTree(j.Target)
 		out.Sequential[j.Target] = h
+		// kept aside so that a differing concurrent tree can be compared file by file
+		_ = os.RemoveAll(j.Target + ".seq")
+		_ = copyTree(j.Target, j.Target+".seq")
 	}
 	for i, p := range cfg.Pairs {
 		out.DiffSeq[fmt.Sprint(i)] = diffDigest(p[0], p[1])
@@ -263,6 +267,11 @@ func worker(cfgPath string) {
 				defer wg.Done()
 				err := runGen(j)
 				h, _ := hashTree(j.Target)
+				if err == nil && h != out.Sequential[j.Target] {
+					if _, e := os.Stat(j.Target + ".bad"); e != nil {
+						_ = copyTree(j.Target, j.Target+".bad")
+					}
+				}
 				mu.Lock()
 				if err != nil {
 					out.Errors = append(out.Errors, fmt.Sprintf("concurrent round %d %s %s: %v", r, j.Kind, filepath.Base(j.Target), err))
@@ -651,8 +660,9 @@ func main() {
 			for _, h := range wo.Concurrent[t] {
 				c.Eval("concurrent/" + filepath.Base(t)[4:])
 				if h != seq && h != "error" {
-					c.Violation("C07/concurrent/differs-from-sequential/"+kind[1], fmt.Sprintf("concurrent generation of %s produced a different tree than the sequential generation of the same input into the same path", filepath.Base(t)),
-						map[string]string{"job.txt": t})
+					d := treeDiff(t+".seq", t+".bad")
+					c.Violation("C07/concurrent/differs-from-sequential/"+kind[1], fmt.Sprintf("concurrent generation of %s produced a different tree than the sequential generation of the same input into the same path: %s", filepath.Base(t), core.OneLine(tail(d, 300))),
+						map[string]string{"job.txt": t, "sequential-vs-concurrent.diff": d})
 				}
 			}
 		}
